@@ -491,3 +491,56 @@ theorem srun_abs (f : Nat) : ∀ (ops : List (XOp α)) (st : XSt α),
       simp [xrun, srun, hs, sstep_abs hs, this]
 
 end ALV.C03
+
+namespace ALV.C03
+variable {α : Type}
+
+theorem set_same {β : Type} {l : List β} {k : Nat} {x : β} (h : l[k]? = some x) : l.set k x = l := by
+  obtain ⟨hk, hx⟩ := List.getElem?_eq_some_iff.1 h
+  apply List.ext_getElem?
+  intro i
+  rw [List.getElem?_set]
+  split
+  · next hki => subst hki; simp [hk, hx]
+  · rfl
+
+/-- a reader of a shared sequence whose source is a list of events `L` (nothing shared below): it gets the
+    head of its own view `viewOf L buf pos` and keeps the tail; an item leaves the view of EVERY reader
+    unchanged; an exception is only ever met at the front, it leaves the shared list — the view of every
+    other reader is its old view with that one event erased -/
+theorem shared_next (f : Nat) {H : SHeap α} {k : Nat} {L : List (Ev α)} {buf : List α} {pos : Nat}
+    (hk : H[k]? = some ⟨.evs L, buf⟩) (hp : pos ≤ buf.length) :
+    ∃ (L' : List (Ev α)) (buf' : List α) (pos' : Nat) (r : Res α),
+      snext (f + 2) H (.view k pos) = some (H.set k ⟨.evs L', buf'⟩, .view k pos', r) ∧ pos' ≤ buf'.length ∧
+      Del (viewOf L buf pos) (viewOf L' buf' pos') r ∧
+      (match r with
+        | .raise e => pos = buf.length ∧ buf' = buf ∧ L = .error e :: L'
+        | _ => ∀ q, q ≤ buf.length → viewOf L' buf' q = viewOf L buf q) := by
+  by_cases hlt : pos < buf.length
+  · refine ⟨L, buf, pos + 1, .item buf[pos], ?_, by omega, ?_, fun _ _ => rfl⟩
+    · have hb : buf[pos]? = some buf[pos] := List.getElem?_eq_getElem hlt
+      rw [set_same hk]
+      show snext (f + 1 + 1) H (.view k pos) = _
+      simp only [snext, hk, hb]
+    · rw [viewOf, List.drop_eq_getElem_cons hlt]
+      simp only [Del, viewOf, List.map_cons, List.cons_append]
+  · have hpos : pos = buf.length := by omega
+    subst hpos
+    have hn : buf[buf.length]? = none := by simp
+    match L, hk with
+    | [], hk =>
+      refine ⟨[], buf, buf.length, .stop, ?_, Nat.le_refl _, ?_, fun _ _ => rfl⟩
+      · simp [snext, hk]
+      · simp [Del, viewOf]
+    | .ok v :: L', hk =>
+      refine ⟨L', buf ++ [v], buf.length + 1, .item v, ?_, by simp, ?_, ?_⟩
+      · simp [snext, hk]
+      · simp [Del, viewOf]
+      · intro q hq
+        simp [viewOf, List.drop_append_of_le_length hq]
+    | .error e :: L', hk =>
+      refine ⟨L', buf, buf.length, .raise e, ?_, Nat.le_refl _, ?_, rfl, rfl, rfl⟩
+      · simp [snext, hk]
+      · simp [Del, viewOf]
+
+end ALV.C03
